@@ -120,26 +120,29 @@ Definition validate_minimum_values (t : txn1) : R unit :=
      || existsb (fun x => fst (snd x) =? 0) (t1_sfo t) || existsb (fun f => f =? 0) (t1_fees t)
   then err 23 else Ok tt.
 
+(* the accumulation loops of validateSiacoins *)
+Fixpoint in_sci1 (s : lstate) (m : mid) (ts : supp1) (l : list sci1) (acc : Z) : R Z :=
+  match l with
+  | [] => Ok acc
+  | i :: r =>
+    if child s <? i1_timelock i then err 24
+    else if is_spent m (i1_parent i) then err 25
+    else match sc_element m ts (i1_parent i) with
+    | None => err 26
+    | Some (p, _) =>
+      if negb (beq (i1_uh i) (sco_addr (sce_out p))) then err 27
+      else if child s <? sce_maturity p then err 28
+      else do a <- cadd acc (sco_value (sce_out p)); in_sci1 s m ts r a
+    end
+  end.
+Fixpoint out_fees (l : list Z) (acc : Z) : R Z :=
+  match l with [] => Ok acc | f :: r => if C128 <=? acc + f then err 21 else out_fees r (acc + f) end.
+
 Definition validate_siacoins (s : lstate) (m : mid) (t : txn1) (ts : supp1) : R unit :=
-  do insum <-
-    (fix go (l : list sci1) (acc : Z) : R Z :=
-       match l with
-       | [] => Ok acc
-       | i :: r =>
-         if child s <? i1_timelock i then err 24
-         else if is_spent m (i1_parent i) then err 25
-         else match sc_element m ts (i1_parent i) with
-         | None => err 26
-         | Some (p, _) =>
-           if negb (beq (i1_uh i) (sco_addr (sce_out p))) then err 27
-           else if child s <? sce_maturity p then err 28
-           else do a <- cadd acc (sco_value (sce_out p)); go r a
-         end
-       end) (t1_sci t) 0;
+  do insum <- in_sci1 s m ts (t1_sci t) 0;
   do o1 <- csum (map (fun x => sco_value (snd x)) (t1_sco t)) 0;
   do o2 <- csum (map (fun x => fc_payout (snd (fst x))) (t1_fc t)) o1;
-  do o3 <- (fix go (l : list Z) (acc : Z) : R Z :=
-              match l with [] => Ok acc | f :: r => if C128 <=? acc + f then err 21 else go r (acc + f) end) (t1_fees t) o2;
+  do o3 <- out_fees (t1_fees t) o2;
   if insum =? o3 then Ok tt else err 29.
 
 Definition validate_siafunds (s : lstate) (m : mid) (t : txn1) (ts : supp1) : R unit :=
